@@ -40,6 +40,8 @@ import (
 
 type cOp struct {
 	// clients: use | use_bad | try          controller: sweep | yield | setcap | scalein
+	// backend layer only: use_big (result > 16 MiB, recycled without fetching the rest),
+	// use_drop (server closes the socket instead of replying: packet error), use_mid (error packet in the rows)
 	Kind string `json:"kind"`
 	Hold int    `json:"hold,omitempty"` // scheduler yields while holding / between controller steps
 	N    int    `json:"n,omitempty"`    // use: scripted factory failures; setcap: capacity
@@ -59,7 +61,7 @@ type concCase struct {
 	Rounds  int     `json:"rounds"`
 }
 
-func genConc(maxClients, maxOps int, modes []string) func(t *rapid.T) concCase {
+func genConc(maxClients, maxOps int, modes []string, backendOps bool) func(t *rapid.T) concCase {
 	return func(t *rapid.T) concCase {
 		var c concCase
 		c.Max = rapid.IntRange(1, 4).Draw(t, "max")
@@ -84,6 +86,28 @@ func genConc(maxClients, maxOps int, modes []string) func(t *rapid.T) concCase {
 				ops = append(ops, op)
 			}
 			c.Clients = append(c.Clients, ops)
+		}
+		if backendOps {
+			for _, ops := range c.Clients {
+				for j := range ops {
+					switch rapid.IntRange(0, 11).Draw(t, "bk") {
+					case 0:
+						ops[j].Kind = "use_drop"
+					case 1:
+						ops[j].Kind = "use_mid"
+					}
+				}
+			}
+			// few big results: each moves 18 MiB over the loopback socket
+			nbig := rapid.SampledFrom([]int{0, 0, 0, 0, 0, 1, 1, 2}).Draw(t, "nbig")
+			if nbig > 0 {
+				c.Rounds = 1
+			}
+			for b := nbig; b > 0; b-- {
+				ci := rapid.IntRange(0, len(c.Clients)-1).Draw(t, "big_client")
+				oi := rapid.IntRange(0, len(c.Clients[ci])-1).Draw(t, "big_op")
+				c.Clients[ci][oi].Kind = "use_big"
+			}
 		}
 		n := rapid.IntRange(0, 12).Draw(t, "nctl")
 		for j := 0; j < n; j++ {
@@ -400,7 +424,7 @@ func TestC24ConcPool(t *testing.T) {
 	}
 	pbt.Run(t, pbt.Spec{ID: "C24", Sub: "conc_pool", Quick: q, Thorough: th,
 		Rule:  "util.ResourcePool, capacity<=max<=4; 2-8 client goroutines with 1-12 operations each (get/hold/put, get/close/put nil, get with 200 us timeout, scripted factory failures) plus a controller goroutine (mode clean: idle sweeps only, Close after the join; grow: plus SetCapacity(max); shrink: plus scale-in ticks and any SetCapacity; close: Close concurrent with clients); 1-4 rounds per workload. non-trivial = at least two connections were held at the same time (or clients competed for a pool of one)",
-		Floor: 0.5}, genConc(8, 12, []string{"clean", "clean", "grow", "shrink", "close"}), checkConc(runPoolRound))
+		Floor: 0.5}, genConc(8, 12, []string{"clean", "clean", "grow", "shrink", "close"}, false), checkConc(runPoolRound))
 }
 
 // ---- backend.ConnectionPool over fakemysql ----
@@ -411,8 +435,29 @@ var (
 	srvErr  error
 )
 
+var bigCell = make([]byte, 2<<20)
+
+// backendHandler scripts the three statements of the backend layer.
+func backendHandler(c *fakemysql.Conn, sql string) fakemysql.Reply {
+	col := []fakemysql.Column{{Name: "v", Type: fakemysql.TypeVarString, Charset: 63, Length: 1 << 24}}
+	switch sql {
+	case "select big":
+		return fakemysql.Reply{Result: &fakemysql.ResultSet{Cols: col, NRows: 9, RowGen: func(i int) [][]byte { return [][]byte{bigCell} }}}
+	case "select drop":
+		return fakemysql.Reply{CloseBefore: true}
+	case "select mid":
+		return fakemysql.Reply{Result: &fakemysql.ResultSet{Cols: col, Rows: [][][]byte{{[]byte("a")}, {[]byte("b")}, {[]byte("c")}}}, MidStreamErr: 2}
+	}
+	return fakemysql.Reply{Unhandled: true}
+}
+
 func runBackendRound(c concCase, st *concState) {
-	srvOnce.Do(func() { srv, srvErr = fakemysql.NewServer("c24", "master", "slice-0") })
+	srvOnce.Do(func() {
+		srv, srvErr = fakemysql.NewServer("c24", "master", "slice-0")
+		if srvErr == nil {
+			srv.Handler = backendHandler
+		}
+	})
 	if srvErr != nil {
 		st.fail("env", "fakemysql: %v", srvErr)
 		return
@@ -459,9 +504,27 @@ func runBackendRound(c concCase, st *concState) {
 					st.fail("double_issue", "client %d got a connection that client %v holds", ci+1, prev)
 				}
 				st.acquired()
-				if op.Hold > 1 {
-					if _, err := pc.Execute("select 1", 0); err != nil {
-						st.label("execute_failed")
+				switch op.Kind {
+				case "use_big":
+					// 9 rows of 2 MiB: the reader stops after 16 MiB and leaves the rest on the wire
+					if _, err := pc.Execute("select big", 0); err == nil && pc.MoreRowsExist() {
+						st.label("recycled_with_unread_rows")
+					} else {
+						st.label("big_result_not_partial")
+					}
+				case "use_drop":
+					if _, err := pc.Execute("select drop", 0); err != nil {
+						st.label("recycled_after_packet_error")
+					}
+				case "use_mid":
+					if _, err := pc.Execute("select mid", 0); err != nil {
+						st.label("recycled_after_error_in_rows")
+					}
+				default:
+					if op.Hold > 1 {
+						if _, err := pc.Execute("select 1", 0); err != nil {
+							st.label("execute_failed")
+						}
 					}
 				}
 				yield(op.Hold)
@@ -532,8 +595,8 @@ func TestC24ConcBackend(t *testing.T) {
 		q, th = 60, 300
 	}
 	pbt.Run(t, pbt.Spec{ID: "C24", Sub: "conc_backend", Quick: q, Thorough: th,
-		Rule:  "backend.ConnectionPool (connectionPoolImpl, pooledConnectImpl.Recycle) over a loopback MySQL simulator, capacity<=max<=4, idle timeout 1 h or 2 ms (real sweep timer); 2-6 client goroutines with 1-8 operations each (Get with timeout, optional query, Recycle; Close+Recycle of a bad connection), controller goroutine that in mode grow raises the capacity and in mode close closes the pool while clients run. non-trivial as in conc_pool",
-		Floor: 0.5}, genConc(6, 8, []string{"clean", "clean", "grow", "close"}), checkConc(runBackendRound))
+		Rule:  "backend.ConnectionPool (connectionPoolImpl, pooledConnectImpl.Recycle) over a loopback MySQL simulator, capacity<=max<=4, idle timeout 1 h or 2 ms (real sweep timer); 2-6 client goroutines with 1-8 operations each (Get with timeout, optional query, Recycle; Recycle of a connection that the client closed, that has unread rows of a >16 MiB result (0-2 per workload), that met a packet error because the server dropped the socket, or that got an error packet among the rows), controller goroutine that in mode grow raises the capacity and in mode close closes the pool while clients run. non-trivial as in conc_pool",
+		Floor: 0.5}, genConc(6, 8, []string{"clean", "clean", "grow", "close"}, true), checkConc(runBackendRound))
 }
 
 // ---- SetCapacity increase against scale-out (stress for the window between two atomic steps) ----
